@@ -536,10 +536,12 @@ class DiHypergraph:
         >>> DH.add_edge(([3, 4], set()), idx='myedge')
         """
         if isinstance(members, (tuple, list)):
-            tail = members[0]
-            head = members[1]
+            tail = list(members[0])
+            head = list(members[1])
         else:
             raise XGIError("Directed edge must be a list or tuple!")
+        if None in set(tail).union(head):
+            raise XGIError("None cannot be a node or edge")
 
         uid = next(self._edge_uid) if idx is None else idx
 
@@ -683,9 +685,12 @@ class DiHypergraph:
                     raise XGIError("Directed edge must be a list or tuple!")
 
                 try:
-                    self._edge[idx] = {"in": set(tail), "out": set(head)}
+                    tail_set, head_set = set(tail), set(head)
                 except TypeError as e:
                     raise XGIError("Invalid ebunch format") from e
+                if None in tail_set or None in head_set:
+                    raise XGIError("None cannot be a node or edge")
+                self._edge[idx] = {"in": tail_set, "out": head_set}
 
                 for n in tail:
                     if n not in self._node:
@@ -747,9 +752,12 @@ class DiHypergraph:
                 try:
                     tail = members[0]
                     head = members[1]
-                    self._edge[idx] = {"in": set(tail), "out": set(head)}
+                    tail_set, head_set = set(tail), set(head)
                 except TypeError as e:
                     raise XGIError("Invalid ebunch format") from e
+                if None in tail_set or None in head_set:
+                    raise XGIError("None cannot be a node or edge")
+                self._edge[idx] = {"in": tail_set, "out": head_set}
 
                 for node in tail:
                     if node not in self._node:
@@ -806,6 +814,8 @@ class DiHypergraph:
         else:
             raise XGIError("Invalid direction!")
 
+        if edge is None or node is None:
+            raise XGIError("None cannot be a node or edge")
         if edge not in self._edge:
             self._edge[edge] = {"in": set(), "out": set()}
             self._edge_attr[edge] = {}
